@@ -339,6 +339,7 @@ func (fr *Frame) applyContract(c *Contract, fn *ssa.Function, key string, args [
 		}
 		names[g.Name] = cands[0]
 	}
+	fr.vc.relied[key] = true
 	pre := fr.st.clone()
 	for i, rq := range c.Requires {
 		t, err := fr.evalClause(rq, &evalCtx{fr: fr, st: fr.st, old: fr.st, names: names, callee: key})
